@@ -34,6 +34,7 @@ type Case struct {
 	Target int    `json:"target"` // index of the affected chunk (>= 1)
 	Fault  string `json:"fault"`  // fsize-error (RLIMIT_FSIZE, SIGXFSZ ignored: short write then EFBIG) | fsize-kill (RLIMIT_FSIZE, default action) | kill:<step>
 	K      int    `json:"k"`      // byte offset at which the file write stops (fsize faults)
+	K2     int    `json:"k2,omitempty"` // fsize-steps: the limit is raised to K2 after the first short write and lifted after the second
 }
 
 const bufferID = "victim,queue"
@@ -116,7 +117,7 @@ func victimMain(spec string) {
 			flush() // the report must exist before the process may die
 			switch {
 			case strings.HasPrefix(c.Fault, "fsize"):
-				if c.Fault == "fsize-error" {
+				if c.Fault == "fsize-error" || c.Fault == "fsize-steps" {
 					signal.Ignore(syscall.SIGXFSZ)
 				}
 				if c.Fault == "fsize-killmid" {
@@ -137,6 +138,21 @@ func victimMain(spec string) {
 					os.Exit(3)
 				}
 				restore = func() { _ = syscall.Setrlimit(syscall.RLIMIT_FSIZE, &old) }
+				if c.Fault == "fsize-steps" {
+					// several short writes in a row, each making progress: space (or quota) becomes available step by step
+					step := 0
+					util.KillPointForVerif = func(s string, filename string) {
+						if s != "after-partial-write" {
+							return
+						}
+						step++
+						next := old
+						if step == 1 {
+							next.Cur = uint64(c.K2)
+						}
+						_ = syscall.Setrlimit(syscall.RLIMIT_FSIZE, &next)
+					}
+				}
 			case strings.HasPrefix(c.Fault, "kill:"):
 				step := strings.TrimPrefix(c.Fault, "kill:")
 				util.KillPointForVerif = func(s string, filename string) {
@@ -199,7 +215,7 @@ func runCase(c Case) vh.Result {
 		panic("victim could not set up the fault: " + out.String())
 	}
 	size := c.Sizes[c.Target]
-	midWrite := c.Fault == "damage:empty" || (strings.HasPrefix(c.Fault, "fsize") && c.K > 0 && c.K < size) || c.Fault == "kill:after-open" || c.Fault == "kill:after-write" || c.Fault == "kill:after-close"
+	midWrite := c.Fault == "fsize-steps" || c.Fault == "damage:empty" || (strings.HasPrefix(c.Fault, "fsize") && c.K > 0 && c.K < size) || c.Fault == "kill:after-open" || c.Fault == "kill:after-write" || c.Fault == "kill:after-close"
 	res.NonTrivial = midWrite
 	res.Classes = append(res.Classes, "fault-"+c.Fault)
 	if died {
@@ -312,7 +328,7 @@ loop:
 	return res
 }
 
-var faults = []string{"fsize-error", "fsize-kill", "fsize-killmid", "damage:empty", "kill:after-open", "kill:after-write", "kill:after-close", "kill:after-rename"}
+var faults = []string{"fsize-error", "fsize-kill", "fsize-killmid", "damage:empty", "kill:after-open", "kill:after-write", "kill:after-close", "kill:after-rename", "fsize-steps"}
 
 func genCase(t *rapid.T) Case {
 	var c Case
@@ -327,6 +343,15 @@ func genCase(t *rapid.T) Case {
 		if c.K < 0 {
 			c.K = 0
 		}
+	}
+	if c.Fault == "fsize-steps" {
+		size := c.Sizes[c.Target]
+		if size < 3 {
+			c.Sizes[c.Target] = 3
+			size = 3
+		}
+		c.K = rapid.IntRange(1, size-2).Draw(t, "k1")
+		c.K2 = rapid.IntRange(c.K+1, size-1).Draw(t, "k2")
 	}
 	return c
 }
@@ -358,7 +383,21 @@ func enumFaults(yield func(Case) bool) {
 					}
 				}
 			}
-			for _, f := range faults[3:] { // damage:empty and the kill points
+			for k1 := 1; k1 <= size-2 && size <= 12; k1++ { // every pair of stop offsets for small chunks
+				for k2 := k1 + 1; k2 <= size-1; k2++ {
+					idx++
+					if vh.NShards > 1 && idx%vh.NShards != vh.Shard {
+						continue
+					}
+					c := base
+					c.Sizes = append([]int(nil), base.Sizes...)
+					c.Fault, c.K, c.K2 = "fsize-steps", k1, k2
+					if !yield(c) {
+						return
+					}
+				}
+			}
+			for _, f := range faults[3:8] { // damage:empty and the kill points
 				idx++
 				if vh.NShards > 1 && idx%vh.NShards != vh.Shard {
 					continue
